@@ -242,6 +242,7 @@ def main(t, sd):
                paths=len(paths), functions_encoded=sorted(fns), stubs_at_call_edges=stubs, std_models=sorted(mods), solver_queries=solver.queries, solver_time_s=round(solver.time, 3),
                bounds=dict(diagnostics='0..1 syntax error + 0..2 semantic diagnostics with symbolic severity (error/warning)', verbose='0..2', tier=t),
                inconclusive=inconc[:30], known_findings_hit=known_hits, violations_reported=reported)
+    cov['built_from'] = dict(harness.LLW_INFO) or dict(repo=harness.REPO, source_digest=harness.source_digest())   # which source tree this run compiled
     ev = dict(property_id='C19', tier=t, seed=sd, level='model_checking', coverage=cov, wall_s=round(time.time() - t0, 2), violations=reported,
               assumptions=['PARTIAL: only the gating logic of lelwel::compile and RustOutput::run; what the stubbed emitters write, real file systems (read-only directories, races, symlinks), clap argument parsing in llw and lelwel::build are outside',
                            'GraphvizOutput::run, output_parser and output_lexer are taken to create their file (one create event each)'])
